@@ -1147,3 +1147,177 @@ func runFD09(p *Prog, r *RuleRun) {
 			"tail truncation drops/keeps segments differently from the model (drop iff BaseIndex > newMax): "+strings.Join(bad, " | "))
 	}
 }
+
+// ---------------------------------------------------------------- FD-10
+
+func init() {
+	register(&Rule{ID: "FD-10", Title: "first/last index derivation and the base index of a new segment follow the contiguous-log model",
+		Props: []string{"C05", "C04"}, Floor: 3, Run: runFD10})
+}
+
+func runFD10(p *Prog, r *RuleRun) {
+	firstFn, lastFn := p.Func("", "state.firstIndex"), p.Func("", "state.lastIndex")
+	cns := p.Func("", "WAL.createNextSegment")
+	if firstFn == nil || lastFn == nil || cns == nil {
+		r.Unknown("anchor", "?", "state.firstIndex / state.lastIndex / WAL.createNextSegment not found")
+		return
+	}
+	sym := func(val ssa.Value) string {
+		if c, ok := val.(*ssa.Call); ok {
+			switch eventName(c) {
+			case "types.SegmentWriter.LastIndex":
+				return "tailLast"
+			case "time.Time.IsZero":
+				if fieldLoadName(c.Call.Args[0]) == "SealTime" {
+					return "b:unsealed"
+				}
+			}
+		}
+		switch fieldLoadName(val) {
+		case "MinIndex":
+			return "Min"
+		case "BaseIndex":
+			return "Base"
+		case "MaxIndex":
+			return "Max"
+		case "nextBaseIndex":
+			return "nextBase"
+		}
+		return ""
+	}
+	retLabel := func(ret *ssa.Return, res []ssa.Value, eval func(ssa.Value) fdVal) string {
+		v := res[0]
+		if c, ok := v.(*ssa.Const); ok && c.Value != nil && c.Int64() == 0 {
+			return "ZERO"
+		}
+		if c, ok := v.(*ssa.Call); ok && eventName(c) == "types.SegmentWriter.LastIndex" {
+			return "TAIL"
+		}
+		if ph, ok := v.(*ssa.Phi); ok {
+			// a phi of the tail's LastIndex() call is still that value on its edge; evaluate
+			if ev := eval(ph); ev.known {
+				return fmt.Sprintf("VAL(%d)", ev.n)
+			}
+		}
+		if fieldLoadName(v) == "MinIndex" {
+			return "MIN"
+		}
+		if bo, ok := v.(*ssa.BinOp); ok && bo.Op == token.SUB && fieldLoadName(bo.X) == "BaseIndex" {
+			if c, ok := bo.Y.(*ssa.Const); ok && c.Int64() == 1 {
+				return "BASE-1"
+			}
+		}
+		if ev := eval(v); ev.known {
+			return fmt.Sprintf("VAL(%d)", ev.n)
+		}
+		return "OTHER"
+	}
+	// firstIndex: 0 for no segment or an empty unsealed head; otherwise the head's MinIndex
+	{
+		spec := &fdSpec{Symbol: sym, Return: retLabel, MaxVisits: 1}
+		var bad []string
+		n := enumAssignments([]string{"b:unsealed", "tailLast", "Min"}, 0, 2, func(a map[string]int64) bool { return a["b:unsealed"] <= 1 && a["Min"] >= 1 }, func(a map[string]int64) {
+			tr := fdRun(firstFn, spec, a)
+			has := func(l string) bool {
+				for _, t := range tr {
+					if t == l || t == fmt.Sprintf("VAL(%d)", a["Min"]) && l == "MIN" {
+						return true
+					}
+				}
+				return false
+			}
+			emptyHead := a["b:unsealed"] == 1 && a["tailLast"] == 0
+			if emptyHead && has("MIN") || !emptyHead && !has("MIN") {
+				if len(bad) < 4 {
+					bad = append(bad, fmt.Sprintf("%s: traces %v", fmtAssign(a), tr))
+				}
+			}
+		})
+		r.Check(len(bad) == 0 && n > 0, funcDisplay(firstFn)+":model", p.Position(firstFn.Pos()), "firstIndex is 0 for no segment or an empty unsealed head segment, the head's MinIndex otherwise",
+			"firstIndex deviates from the model (0 iff the log is empty, else the first segment's MinIndex): "+strings.Join(bad, " | "))
+	}
+	// lastIndex: the tail's committed index when non-zero; otherwise the previous segment's end (tail BaseIndex-1) or 0
+	{
+		spec := &fdSpec{Symbol: sym, Return: retLabel, MaxVisits: 1}
+		var bad []string
+		n := enumAssignments([]string{"tailLast", "Base"}, 0, 3, nil, func(a map[string]int64) {
+			tr := fdRun(lastFn, spec, a)
+			set := map[string]bool{}
+			for _, t := range tr {
+				set[t] = true
+			}
+			tailVal := fmt.Sprintf("VAL(%d)", a["tailLast"])
+			if a["tailLast"] > 0 {
+				if len(set) != 1 || !(set["TAIL"] || set[tailVal]) {
+					bad = append(bad, fmt.Sprintf("%s: want only the tail's index, traces %v", fmtAssign(a), tr))
+				}
+			} else {
+				want := "BASE-1"
+				if a["Base"] == 0 {
+					want = "ZERO"
+				}
+				if set["TAIL"] && a["tailLast"] != 0 || !(set[want] || set[fmt.Sprintf("VAL(%d)", a["Base"]-1)]) {
+					bad = append(bad, fmt.Sprintf("%s: want %s reachable, traces %v", fmtAssign(a), want, tr))
+				}
+			}
+		})
+		if len(bad) > 4 {
+			bad = bad[:4]
+		}
+		r.Check(len(bad) == 0 && n > 0, funcDisplay(lastFn)+":model", p.Position(lastFn.Pos()), "lastIndex is the tail's committed index when non-zero, else the previous segment's last index (tail BaseIndex-1) or 0",
+			"lastIndex deviates from the model: "+strings.Join(bad, " | "))
+	}
+	// createNextSegment: base index = previous tail's MaxIndex+1, else the requested nextBaseIndex, else 1
+	{
+		var newSeg *ssa.Call
+		for _, b := range cns.Blocks {
+			for _, ins := range b.Instrs {
+				if c, ok := ins.(*ssa.Call); ok && c.Call.StaticCallee() != nil && c.Call.StaticCallee().Signature.Results().Len() == 1 &&
+					isNamed(c.Call.StaticCallee().Signature.Results().At(0).Type(), ModPath+"/types", "SegmentInfo") {
+					newSeg = c
+				}
+			}
+		}
+		if newSeg == nil {
+			r.Unknown(funcDisplay(cns)+":base-index", p.Position(cns.Pos()), "no SegmentInfo constructor call found in createNextSegment")
+			return
+		}
+		baseArg := newSeg.Call.Args[len(newSeg.Call.Args)-1]
+		getTail := ""
+		spec := &fdSpec{MaxVisits: 1,
+			Symbol: func(val ssa.Value) string {
+				if c, ok := val.(*ssa.Call); ok && c.Call.StaticCallee() != nil && c.Call.StaticCallee().Name() == "getTailInfo" {
+					getTail = "seen"
+					return "tailptr"
+				}
+				return sym(val)
+			},
+			Effect: func(ins ssa.Instruction, eval func(ssa.Value) fdVal) (string, bool) {
+				if ins == newSeg {
+					v := eval(baseArg)
+					if !v.known {
+						return "BASE(?)", true
+					}
+					return fmt.Sprintf("BASE(%d)", v.n), true
+				}
+				return "", false
+			}}
+		var bad []string
+		n := enumAssignments([]string{"tailptr", "Max", "nextBase"}, 0, 2, func(a map[string]int64) bool { return a["tailptr"] <= 1 }, func(a map[string]int64) {
+			want := int64(1)
+			if a["tailptr"] == 1 {
+				want = a["Max"] + 1
+			} else if a["nextBase"] > 0 {
+				want = a["nextBase"]
+			}
+			for _, t := range fdRun(cns, spec, a) {
+				if t != fmt.Sprintf("BASE(%d)", want) && len(bad) < 4 {
+					bad = append(bad, fmt.Sprintf("%s: want base %d, code %s", fmtAssign(a), want, t))
+				}
+			}
+		})
+		_ = getTail
+		r.Check(len(bad) == 0 && n > 0, funcDisplay(cns)+":base-index", posOf(p, newSeg), "a new segment starts at the previous tail's MaxIndex+1, else at the requested next base index, else at 1",
+			"the base index of a newly created segment deviates from the model (contiguity with the sealed predecessor): "+strings.Join(bad, " | "))
+	}
+}
